@@ -23,6 +23,7 @@ import (
 	"net/url"
 	"os"
 	"path/filepath"
+	"runtime"
 	"sort"
 	"strings"
 	"sync"
@@ -42,6 +43,7 @@ import (
 	"github.com/AdguardTeam/AdGuardDNS/internal/filter/hashprefix"
 	"github.com/AdguardTeam/AdGuardDNS/internal/geoip"
 	"github.com/AdguardTeam/AdGuardDNS/internal/querylog"
+	"github.com/AdguardTeam/AdGuardDNS/internal/verifhook"
 	"github.com/AdguardTeam/AdGuardDNS/verif/vkit"
 	"github.com/c2h5oh/datasize"
 	"github.com/miekg/dns"
@@ -1871,6 +1873,210 @@ func (mo *monitor) checkStackHost(st *stack, rng *rand.Rand, worlds []*fworld, p
 }
 
 // ---------------------------------------------------------------------------
+// World B, part 2: requests in flight across a list refresh.  The hook point
+// hashprefix.afterMatch (between the hash lookup and the result-cache write)
+// parks some of the readers that pass it while Filter.Refresh is running and
+// releases them after Refresh has returned, so that their cache writes land
+// after the refresh cleared the cache.  Afterwards, with no request in flight,
+// every such host is asked again: the answer must be that of the NEW list.
+// ---------------------------------------------------------------------------
+
+type staleProbe struct {
+	host string
+	qt   uint16
+	kind string
+}
+
+func (mo *monitor) staleWorld() {
+	r := mo.r
+	scratch := os.Getenv("VERIF_SCRATCH")
+	if scratch == "" {
+		scratch = mo.t.TempDir()
+	}
+	scratch = filepath.Join(scratch, "c11-stale")
+	if err := os.MkdirAll(scratch, 0o755); err != nil {
+		mo.t.Fatal(err)
+	}
+	errs := &errRecorder{}
+	fw := mo.newFilterWorld(scratch, filter.IDNewRegDomains, replIPv4, false, 200000, errs)
+	msgs := agdtest.NewConstructor(mo.t)
+	ctx := context.Background()
+
+	// Two big lists with the same filler and disjoint sets of changing names.
+	filler := r.N(200000, 300000)
+	nChange := 20000
+	var sb strings.Builder
+	sb.WriteString("# filler\n")
+	for i := 0; i < filler; i++ {
+		fmt.Fprintf(&sb, "f%d.c11-filler.net\n", i)
+	}
+	fillerText := sb.String()
+	var texts [2]string
+	var mods [2]*model
+	var bases [2][]string
+	for v := 0; v < 2; v++ {
+		var b strings.Builder
+		b.WriteString(fillerText)
+		for i := 0; i < nChange; i++ {
+			nm := fmt.Sprintf("%c%d.c11-stale.org", 'x'+v, i)
+			bases[v] = append(bases[v], nm)
+			b.WriteString(nm)
+			b.WriteByte('\n')
+		}
+		texts[v] = b.String()
+		mods[v] = parseModel(texts[v])
+	}
+	allBases := append(append([]string(nil), bases[0]...), bases[1]...)
+
+	if err := fw.load(ctx, texts[0], true); err != nil {
+		r.Inconclusive("stale world: initial load failed: " + err.Error())
+		return
+	}
+
+	const (
+		readers = 64
+		maxPark = 48
+	)
+	qts := []uint16{dns.TypeA, dns.TypeAAAA, dns.TypeHTTPS}
+	ask := func(host string, qt uint16) (matched bool, err error) {
+		defer func() {
+			if p := recover(); p != nil {
+				err = fmt.Errorf("panic: %v", p)
+			}
+		}()
+		res, err := fw.flt.FilterRequest(ctx, &filter.Request{
+			DNS: &dns.Msg{
+				MsgHdr:   dns.MsgHdr{Id: 1, RecursionDesired: true},
+				Question: []dns.Question{{Name: host + ".", Qtype: qt, Qclass: dns.ClassINET}},
+			},
+			Messages: msgs,
+			RemoteIP: netip.MustParseAddr("192.0.2.1"),
+			Host:     host,
+			QType:    qt,
+			QClass:   dns.ClassINET,
+		})
+		return res != nil, err
+	}
+
+	rounds := r.N(5, 16)
+	for round := 1; round <= rounds; round++ {
+		newV := round % 2
+		oldM, newM := mods[1-newV], mods[newV]
+
+		var (
+			refreshing, done, released atomic.Bool
+			hits, requests             atomic.Int64
+			next                       atomic.Int64
+			mu                         sync.Mutex
+			parked                     int
+			parkedAfterSwitch          int
+			recorded                   []staleProbe
+		)
+		next.Store(1)
+		release := make(chan struct{})
+		sentinel := bases[newV][0] // listed in the new version only
+		verifhook.Set(func(point string) {
+			if point != "hashprefix.afterMatch" || !refreshing.Load() {
+				return
+			}
+			h := hits.Add(1)
+			if h < next.Load() {
+				return
+			}
+			mu.Lock()
+			park := parked < maxPark && h >= next.Load()
+			if park {
+				parked++
+				n := next.Load()
+				next.Store(max(n+1, n*13/10))
+				if fw.strg.Matches(sentinel) {
+					parkedAfterSwitch++
+				}
+			}
+			mu.Unlock()
+			if park {
+				<-release
+			}
+		})
+
+		var wg sync.WaitGroup
+		for g := 0; g < readers; g++ {
+			wg.Add(1)
+			go func(g int) {
+				defer wg.Done()
+				sampled := 0
+				for i := 0; !done.Load(); i++ {
+					base := allBases[(g*7919+i*31)%len(allBases)]
+					host := fmt.Sprintf("u%d-%d-%d.%s", round, g, i, base)
+					qt := qts[(g+i)%3]
+					during := refreshing.Load()
+					relBefore := released.Load()
+					_, err := ask(host, qt)
+					requests.Add(1)
+					if err != nil {
+						r.Violation("filter:error-during-refresh", "Filter.FilterRequest failed or panicked while a refresh was running",
+							map[string]any{"round": round, "host": host, "qtype": dns.Type(qt).String(), "err": err.Error()})
+						return
+					}
+					switch {
+					case !relBefore && released.Load():
+						mu.Lock()
+						recorded = append(recorded, staleProbe{host, qt, "in-flight-across-refresh"})
+						mu.Unlock()
+					case (during || refreshing.Load()) && sampled < 1000:
+						sampled++
+						mu.Lock()
+						recorded = append(recorded, staleProbe{host, qt, "asked-during-refresh"})
+						mu.Unlock()
+					}
+				}
+			}(g)
+		}
+		// Let the readers run before the refresh starts (a count, not a time).
+		for requests.Load() < 20000 {
+			runtime.Gosched()
+		}
+		refreshing.Store(true)
+		err := fw.load(ctx, texts[newV], false)
+		refreshing.Store(false)
+		done.Store(true)
+		released.Store(true)
+		close(release)
+		wg.Wait()
+		verifhook.Set(nil)
+		if err != nil {
+			r.Inconclusive(fmt.Sprintf("stale world: refresh %d failed: %v", round, err))
+			return
+		}
+		r.Bucket("stale_rounds", 1)
+		r.Bucket("stale_hook_hits_during_refresh", hits.Load())
+		r.Bucket("stale_readers_parked_during_refresh", int64(parked))
+		r.Bucket("stale_readers_parked_before_storage_switched", int64(parked-parkedAfterSwitch))
+		r.Bucket("stale_requests_concurrent", requests.Load())
+
+		// Nothing is in flight any more: the filter must answer from the new list.
+		for _, pr := range recorded {
+			want := newM.expectHost(pr.host, pr.qt).Matched
+			got, err := ask(pr.host, pr.qt)
+			r.Bucket("stale_reprobes", 1)
+			r.Bucket("stale_reprobes:"+pr.kind, 1)
+			r.Eval(fmt.Sprintf("stale|%s|want=%v|qt-%s", pr.kind, want, dns.TypeToString[pr.qt]), true)
+			if err != nil || got != want {
+				r.Bucket("stale_mismatches:"+pr.kind, 1)
+				r.Violation("filter:stale-across-reset", "after a refresh has returned and all requests that were in flight have finished, a host whose listing changed is still answered as by the old list",
+					map[string]any{"round": round, "host": pr.host, "qtype": dns.Type(pr.qt).String(), "how_recorded": pr.kind,
+						"want_new_list": want, "old_list_verdict": oldM.expectHost(pr.host, pr.qt).Matched, "got": got, "err": fmt.Sprint(err),
+						"parked_readers": parked})
+			}
+		}
+		if round == 1 && len(recorded) > 0 {
+			r.Sample(map[string]any{"component": "stale-across-reset", "round": round, "reprobes": len(recorded), "parked": parked,
+				"first": map[string]any{"host": recorded[0].host, "qtype": dns.Type(recorded[0].qt).String(), "kind": recorded[0].kind}})
+		}
+	}
+}
+
+// ---------------------------------------------------------------------------
 // World C: look-ups concurrent with resets.  A reader must see the old or the
 // new list: a name in both is always matched, a name in neither never, and the
 // hashes behind a prefix are those of the old or those of the new list.
@@ -2038,9 +2244,13 @@ func TestCheck(t *testing.T) {
 	}
 	mo.directWorld()
 	mo.filterWorld()
+	mo.staleWorld()
 	mo.concurrentWorld()
 
 	r.Require("storage_resets", 10)
+	r.Require("stale_rounds", 5)
+	r.Require("stale_readers_parked_during_refresh", 40)
+	r.Require("stale_reprobes:in-flight-across-refresh", 40)
 	r.Require("concurrent_resets", 100)
 	r.Require("concurrent_lookups", 30000)
 	r.Require("concurrent_lookups_during_a_reset", 200)
